@@ -533,7 +533,11 @@ pub fn run(toks: &[&str]) -> Lines {
                     "DF" => {
                         let mut b = std::fs::read(&p).unwrap();
                         // (an empty file planted by an earlier DP step has no bit to flip)
-                        let off: usize = op[3].parse::<usize>().unwrap() % (b.len() * 8).max(1);
+                        // `e<n>`: n bits before the end of the file (the chunk data), else a bit offset from the start
+                        let off: usize = match op[3].strip_prefix('e') {
+                            Some(back) => (b.len() * 8).saturating_sub(1 + back.parse::<usize>().unwrap()),
+                            None => op[3].parse::<usize>().unwrap() % (b.len() * 8).max(1),
+                        };
                         let pat: u32 = op[4].parse().unwrap();
                         for j in 0..32 {
                             if (pat >> j) & 1 == 1 && off + j < b.len() * 8 {
